@@ -320,16 +320,15 @@ def plan(tier: str):
     else:
         for s in starts:
             jobs.append((s, 1, "full", None))
+            jobs.append((s, 2, "small", None))
             jobs.append((s, 3, "small", None))
-        # depth 2 over the medium alphabet (2 M states, 1 M histories per start): every 25th history is replayed
-        for s in ["lab22", "zeros22"]:
-            jobs.append((s, 2, "medium", None))
-        for s in ["lab22", "lab222"]:
-            jobs.append((s, 4, "small", None))
+        jobs.append(("lab22", 4, "small", None))
         for s in starts:
-            jobs.append((s, 25, "small", 2000))
-        for s in ["lab22", "lab23"]:
-            jobs.append((s, 6, "medium", 40))
+            jobs.append((s, 25, "small", 500))
+        # walks over the medium alphabet (its exhaustive depth-2 instance has 2 M states and a million histories per
+        # start: too many to replay)
+        for s in ["lab22", "lab23", "zeros22"]:
+            jobs.append((s, 6, "medium", 200))
     return jobs
 
 
@@ -348,7 +347,7 @@ def main(tier: str) -> int:
     behaviours = []
     for (start, D, alpha, nsim), r in zip(plan(tier), results):
         out.add_tlc(r)
-        behaviours += r.json[::25] if (alpha == "medium" and nsim is None) else r.json
+        behaviours += r.json
     out.notes["histories"] = len(behaviours)
     out.notes["plan"] = [list(p) for p in plan(tier)]
 
